@@ -54,26 +54,27 @@ LEVEL_TEXT = (
     "interval_law / sharp_grid / error_delay_law at sequence level (the next iteration IS a run and starts at patched + "
     "interval / the first grid point start + k*interval strictly after patched / max(patched, ended + delay), later only "
     "through the idle gate, with the exact form of the postponement); initial_delay_law (every spawn); idle_only_law; "
-    "one_shot. Idle clause: idle_law (arbitrary view of idle_reset_time), idle_law_registered (idle_reset_time derived "
-    "from an arbitrary event history: no start within idle after any change the operator registered); the FULL clause "
-    "(FullIdle: after any essential change) is proved under the exact guard AllEssentialRegistered (idle_law_partial) and "
-    "refuted in general by a concrete schedule (idle_full_clause_false_witness: A -> B -> A with B never handled; open "
-    "finding C10-F1, replayed on the real operator in every run). The model is hand-written; its branch chain, reset "
-    "condition, loop conditions, sleep arithmetic and statement skeleton are re-extracted from the AST on every run and "
+    "one_shot. Idle clause: idle_law (arbitrary view of idle_reset_time) and idle_law_full: with idle_reset_time derived "
+    "from an ARBITRARY history of processed events (reset when the essence differs from the last-handled or from the "
+    "last-seen one, as since repair 201494d), no run starts within the idle time after ANY essential change (FullIdle), "
+    "under the one residual guard that the per-object memory is created by the first processed event (how memories.recall "
+    "works); changes made while no operator runs are not events of the history: after a restart the first sight counts. "
+    "The former counterexample (A -> B -> A with B never handled, "
+    "fixed finding C10-F1) is a regression example in Lean and in the corpus. The model is hand-written; its branch chain, reset "
+    "condition, idle-reset condition (processing._detect_causes), loop conditions, sleep arithmetic and statement skeleton are re-extracted from the AST on every run and "
     "proved equal (T), and every loop iteration of seeded closed-loop simulations is compared with it (S): invocation "
     "decision, retry kwarg, state after the run, next start (tick-exact), carried state at the next iteration, the reset "
     "decision per processed event and every read of idle_reset_time against the value derived from the event history. "
     "Assumes interval > 0 where present and no handler timeout.")
-TIE = ("T: post-run branch chain + state-reset condition + idle-gate/poll expressions + stopper guards + statement skeleton of "
+TIE = ("T: post-run branch chain + state-reset condition + idle-reset condition of _detect_causes + idle-gate/poll expressions + stopper guards + statement skeleton of "
        "daemons._timer re-extracted and proved equal to the model; S: per loop iteration of closed-loop simulations: invocation "
        "decision, carried state, exact tick equality of the next start; per event the reset decision; per read the derived view")
 THEOREMS = [("Kopf.Props.C10", "Kopf.C10." + n) for n in [
     "no_overlap_step", "no_overlap", "invoked_unless_failed", "failed_is_last", "failed_run_marks_state",
     "success_marks_state", "interval_law_step", "interval_law", "sharp_grid_step", "sharp_grid", "error_delay_step",
-    "error_delay_law", "initial_delay_law", "idle_law", "idle_law_registered", "idle_law_partial",
-    "idle_full_clause_false_witness", "idle_only_law", "one_shot"]]
+    "error_delay_law", "initial_delay_law", "idle_law", "idle_law_full", "idle_only_law", "one_shot"]]
 TIE_THEOREMS = [("Kopf.Tie.C10", "Kopf.C10.Tie." + n) for n in [
-    "post_eq", "reset_top_eq", "at_top_eq", "idle_cond_eq", "idle_delay_eq", "poll_cond_eq", "poll_delay_eq", "shape_eq", "stopper_guards_eq", "idle_step_eq", "poll_step_eq"]]
+    "post_eq", "reset_top_eq", "at_top_eq", "reset_cond_eq", "resets_idle_eq", "idle_cond_eq", "idle_delay_eq", "poll_cond_eq", "poll_delay_eq", "shape_eq", "stopper_guards_eq", "idle_step_eq", "poll_step_eq"]]
 RULE = ("seeded scenarios: 1-2 timers on 1-2 objects, all 16 presence combinations of interval/sharp/idle/initial_delay "
         "(stratified), scripted results ok/ok+result/ok+patch/temporary(delay)/arbitrary/permanent with function durations "
         "0, <, =-1tick, =, =+1tick, > the interval (1.5x, 2x, 2.5x), backoff/retries/errors options, optional update handler "
@@ -207,7 +208,51 @@ def _call_text(st: ast.stmt) -> str:
     return pyextract.norm(v.func) if isinstance(v, ast.Call) else ""
 
 
+RESET_VOCAB = {
+    "bool(diff)": "a.diffLastHandled",
+    "bool(diffs.diff(seen, new))": "a.diffSeen",
+}
+
+
+def _extract_reset(ctx: Ctx) -> str:
+    """`processing._detect_causes`: the `reset=` argument of the spawning cause, the bookkeeping of the last-seen
+    essence it reads, and `process_spawning_cause`'s write of idle_reset_time under `cause.reset`."""
+    tree = pyextract.parse_file(ctx.repo / "kopf/_core/reactor/processing.py")
+    fn = pyextract.find_def(tree, "_detect_causes")
+    texts = [pyextract.norm(st) for st in pyextract.body_without_docstring(fn)]
+    want = ["diff = diffs.diff(old, new)", "seen = memory.daemons_memory.last_seen_essence",
+            "seen = new if seen is None else seen", "memory.daemons_memory.last_seen_essence = new"]
+    pos = []
+    for w in want:
+        if texts.count(w) != 1:
+            raise ExtractError(f"_detect_causes: expected exactly one `{w}`")
+        pos.append(texts.index(w))
+    if pos != sorted(pos):
+        raise ExtractError("_detect_causes: the last-seen bookkeeping is out of order")
+    for n in ast.walk(fn):
+        if isinstance(n, (ast.Assign, ast.AugAssign, ast.AnnAssign)):
+            t = pyextract.norm(n)
+            if ("last_seen_essence" in t or t.startswith(("seen =", "diff =", "new =", "old ="))) and t not in want and not t.startswith(("new = settings", "old = settings")):
+                raise ExtractError(f"_detect_causes: unexpected assignment `{t[:120]}`")
+    calls = [n for n in ast.walk(fn) if isinstance(n, ast.Call) and pyextract.norm(n.func) == "causes.detect_spawning_cause"]
+    if len(calls) != 1:
+        raise ExtractError("_detect_causes: detect_spawning_cause call not found")
+    kws = {k.arg: k.value for k in calls[0].keywords}
+    if "reset" not in kws:
+        raise ExtractError("_detect_causes: the spawning cause gets no `reset=`")
+    cond = pyextract.BoolTranslator(RESET_VOCAB).tr(kws["reset"])
+    psc = pyextract.find_def(tree, "process_spawning_cause")
+    ok = [st for st in psc.body if isinstance(st, ast.If) and pyextract.norm(st.test) == "cause.reset" and not st.orelse
+          and len(st.body) == 1
+          and pyextract.norm(st.body[0]) == "memory.daemons_memory.idle_reset_time = asyncio.get_running_loop().time()"]
+    writes = [n for n in ast.walk(tree) if isinstance(n, ast.Assign) and "idle_reset_time" in pyextract.norm(n.targets[0])]
+    if len(ok) != 1 or len(writes) != 1:
+        raise ExtractError("processing: idle_reset_time is no longer written exactly once, under `if cause.reset:`")
+    return cond
+
+
 def extract(ctx: Ctx) -> None:
+    reset_cond = _extract_reset(ctx)
     tree = pyextract.parse_file(ctx.repo / "kopf/_core/engines/daemons.py")
     fn = pyextract.find_def(tree, "_timer")
     body = pyextract.body_without_docstring(fn)
@@ -304,6 +349,8 @@ def extract(ctx: Ctx) -> None:
     out += f"def post (a : PostAtoms) : Post :=\n    {post_body}\n\n"
     out += "/-- the carried state is replaced by a fresh one at the top of the loop -/\n"
     out += f"def resetAtTop (a : TopAtoms) : Bool := {reset_top}\n\n"
+    out += "/-- processing._detect_causes: the event resets idling -/\n"
+    out += f"def resetCond (a : ResetAtoms) : Bool := {reset_cond}\n\n"
     out += f"def idleCond (a : GateAtoms) : Bool := {idle_cond}\n\n"
     out += f"def idleDelay (a : GateAtoms) : Int := {idle_delay}\n\n"
     out += f"def pollCond (a : GateAtoms) : Bool := {poll_cond}\n\n"
@@ -1030,21 +1077,23 @@ def abstract_resets(sc: dict, tr: dict) -> list[dict]:
             continue
         e = _intern(table, c["ess_norm"])
         lh = None if c["lh_norm"] is None else _intern(table, c["lh_norm"])
+        seen = history[key][-1][1] if history.get(key) else None
         history.setdefault(key, []).append([ticks(c["t0"]), e, lh])
         if c["event_type"] == "DELETED":
             continue
         if key not in first_seen:     # the memory is created (and stamped) in this cycle
             first_seen.add(key)
             continue
-        groups.setdefault((c["uid"], c["inc"], c["t0"]), []).append({"ess": e, "lh": lh})
+        groups.setdefault((c["uid"], c["inc"], c["t0"]), []).append({"ess": e, "lh": lh, "seen": seen})
     items = []
     for (uid, inc, t0), cs in groups.items():
         if len(cs) != 1:
             continue        # several events of one object processed in one instant: not attributable
-        lh, e = cs[0]["lh"], cs[0]["ess"]
-        items.append({"what": "reset", "req": ["C10.reset", lh, e],
+        lh, e, seen = cs[0]["lh"], cs[0]["ess"], cs[0]["seen"]
+        items.append({"what": "reset", "req": ["C10.reset", lh, seen, e],
                       "impl": (mem_of[(uid, inc)], t0) in writes, "inst": {"uid": uid, "t0": t0}, "obs_ok": True,
-                      "shape": {"gap": "reset", "lh": "none" if lh is None else "same" if lh == e else "differs"}})
+                      "shape": {"gap": "reset", "lh": "none" if lh is None else "same" if lh == e else "differs",
+                                "seen": "same" if seen == e else "differs"}})
     for inst in tr["c10"]["instances"]:
         key = (inst["uid"], inst["inc"])
         evs = history.get(key, [])
@@ -1149,7 +1198,7 @@ def _evaluate(ctx: Ctx, scenarios: list[dict], results: list[dict], stats: dict,
         for item in abstract(sc, tr) + abstract_resets(sc, tr):
             if item["what"] == "reset":
                 ctx.case(key=item["shape"], nontrivial=True)
-                ctx.count("idle-reset-decision(last-handled vs event)", item["shape"]["lh"])
+                ctx.count("idle-reset-decision(last-handled/last-seen vs event)", item["shape"]["lh"] + "/" + item["shape"]["seen"])
                 reqs.append(item["req"])
                 meta.append((sc, item))
                 continue
